@@ -335,7 +335,7 @@ _run_clauses = run
 def run(prog, rep):
     _run_clauses(prog, rep)
     from plint.wiring import check_zero_init
-    check_zero_init(rep, "C15.2", prog, ['phashtable.c', 'plist.c'], 4)
+    check_zero_init(rep, "C15.2", prog, ['phashtable.c', 'plist.c'], 1)
 
 # generic robustness battery: renaming every local/parameter in these files must not change any verdict
 RENAME_LOCALS = ['src/phashtable.c', 'src/plist.c']
